@@ -119,6 +119,7 @@ NOT_APPLICABLE = {}
 
 # additions of the third session (appended to the texts above)
 ADDENDA = {
+ "C09": (" Single-operator programs at 33..100 bits are compared across all configurations; two further configurations switch on diagnostics and every listing (SSA, dot, circuit file, svg): asking for more output must not change the circuit.", ""),
  "C14": (" Round trips include signatures with more than 2000 arguments (header lines beyond a reader buffer).", ""),
  "C12": (" The same folds are also reached on other routes (constant locals, constant arguments, an unsized function instantiated for the same constants at two widths, a constant that is also cast to a wider type); a routed fold that differs from the package-constant fold of the same typed operands has its own key (fold-route).", ""),
  "C01": (" Garbling randomness also comes from degenerate streams (all zero, all one, counting, one bit per byte) and labels are compared byte by byte, independent of Label.Equal. Wide input arguments are also given as small negative numbers (-1, -k).", ""),
